@@ -17,7 +17,7 @@ from .. import meta as M
 from ..oracles import json_equal
 from . import arrayhist as AH
 from . import raggedhist as RH
-from .arrayhist import Viol
+from .arrayhist import Viol, Diverged
 
 DARR_PREFIX = os.path.join(os.path.realpath(REPO), 'darr') + os.sep
 
@@ -467,9 +467,12 @@ class _ACState(_CrashMixin, AH._State):
             fresh = self.darr.Array(self.path)
             ok = D.arr_equal(fresh[:], post_model)[0] and json_equal(dict(fresh.metadata), post_meta)
         except Exception as e:
-            raise Viol('crash.completed_op', f'{kind}:unopenable:{type(e).__name__}', str(e)[:200])
+            # what an operation that ran to its end (no crash) leaves is C03's/C09's/C13's subject
+            self.probe('completed_op_left_unopenable_array_history_ended')
+            raise Diverged(f'crash.completed_op:{kind}:unopenable:{type(e).__name__}')
         if not ok:
-            raise Viol('crash.completed_op', f'{kind}:wrong_final_state', '')
+            self.probe('completed_op_final_state_differs_from_model_history_ended')
+            raise Diverged(f'crash.completed_op:{kind}:wrong_final_state')
         self.model, self.meta = post_model, post_meta
         self.mutations_ok += 1
         self.steps += 1
@@ -659,9 +662,11 @@ class _RCState(_CrashMixin, RH._RState):
             ok = len(fresh) == len(post_L) and all(D.arr_equal(fresh[k], post_L[k])[0] for k in range(len(post_L))) \
                 and json_equal(dict(fresh.metadata), post_meta)
         except Exception as e:
-            raise Viol('crash.completed_op', f'{kind}:unopenable:{type(e).__name__}', str(e)[:200])
+            self.probe('completed_op_left_unopenable_array_history_ended')
+            raise Diverged(f'crash.completed_op:{kind}:unopenable:{type(e).__name__}')
         if not ok:
-            raise Viol('crash.completed_op', f'{kind}:wrong_final_state', '')
+            self.probe('completed_op_final_state_differs_from_model_history_ended')
+            raise Diverged(f'crash.completed_op:{kind}:wrong_final_state')
         self.L, self.meta = list(post_L), post_meta
         self.mutations_ok += 1
         self.steps += 1
